@@ -1,34 +1,10 @@
 (* C09 - the executable property oracle that is run over the IMPLEMENTATION's observations.
    It judges an observation against what the theorems of MxProofs establish: the argv / shell string
    / failure ResolveArguments must produce, the argv the plugin must receive, and the state / exit
-   status / output / perfdata that must end up in the check result.  The reference is the model
-   evaluated on the environment WITHOUT custom variables named "" in the short-macro look-up, i.e.
-   with `$$` meaning a literal dollar sign as C09 demands (C09_dollar); when the environment has no
-   such variable this is the model itself (mx_sanitize_id). *)
+   status / output / perfdata that must end up in the check result. *)
 From Icv Require Import Base.Tac Macro.MxDefs Macro.MxModel.
 From Coq Require Import NArith.
 Local Open Scope N_scope.
-
-Fixpoint mx_remove_key {A} (k : mx_bytes) (d : list (mx_bytes * A)) : list (mx_bytes * A) :=
-  match d with
-  | [] => []
-  | (k', v) :: r => if mx_beq k k' then mx_remove_key k r else (k', v) :: mx_remove_key k r
-  end.
-
-Definition mx_sanitize_level (l : mx_level) : mx_level :=
-  {| mx_lv_name := mx_lv_name l; mx_lv_short := mx_lv_short l;
-     mx_lv_vars := option_map (mx_remove_key []) (mx_lv_vars l);
-     mx_lv_macros := mx_lv_macros l; mx_lv_fields := mx_lv_fields l |}.
-
-Definition mx_sanitize (env : list mx_level) : list mx_level := List.map mx_sanitize_level env.
-
-Definition mx_level_has_empty_var (l : mx_level) : bool :=
-  match mx_lv_vars l with
-  | Some d => match mx_assoc [] d with Some _ => true | None => false end
-  | None => false
-  end.
-
-Definition mx_env_has_empty_var (env : list mx_level) : bool := existsb mx_level_has_empty_var env.
 
 Fixpoint mx_list_beq (a b : list mx_bytes) : bool :=
   match a, b with
@@ -48,7 +24,7 @@ Definition mx_cmdres_beq (a b : mx_cmdres) : bool :=
 
 (* codes: 1 failure expected but a command line was produced, 2 unexpected failure,
           3 array/string kind differs, 4 number of argv elements differs, 5 argv content differs,
-          6 shell string differs, 9 deviation explained by a custom variable named "" *)
+          6 shell string differs *)
 Definition mx_cmdres_code (expected observed : mx_cmdres) : Z :=
   match expected, observed with
   | MxCmdThrow _, _ => 1%Z
@@ -60,10 +36,8 @@ Definition mx_cmdres_code (expected observed : mx_cmdres) : Z :=
 
 Definition mx_oracle_resolve (env : list mx_level) (command : mxv) (arguments : option (list mx_argspec))
            (observed : mx_cmdres) : option Z :=
-  let expected := mx_resolve_arguments (mx_sanitize env) command arguments in
-  if mx_cmdres_beq expected observed then None
-  else if mx_env_has_empty_var env && mx_cmdres_beq (mx_resolve_arguments env command arguments) observed then Some 9%Z
-  else Some (mx_cmdres_code expected observed).
+  let expected := mx_resolve_arguments env command arguments in
+  if mx_cmdres_beq expected observed then None else Some (mx_cmdres_code expected observed).
 
 (* what one real execution shows *)
 Record mx_obs_exec := {
@@ -106,18 +80,7 @@ Definition mx_exec_check (env : list mx_level) (command : mxv) (arguments : opti
              end
     end.
 
-Definition mx_oracle_exec (env : list mx_level) (command : mxv) (arguments : option (list mx_argspec))
-           (plugin_exit : Z) (plugin_out : mx_bytes) (o : mx_obs_exec) : option Z :=
-  match mx_exec_check (mx_sanitize env) command arguments plugin_exit plugin_out o with
-  | None => None
-  | Some c =>
-      if mx_env_has_empty_var env then
-        match mx_exec_check env command arguments plugin_exit plugin_out o with
-        | None => Some 9%Z
-        | Some _ => Some c
-        end
-      else Some c
-  end.
+Definition mx_oracle_exec := mx_exec_check.
 
 (* the model's own observation of an execution *)
 Definition mx_observe_exec (env : list mx_level) (command : mxv) (arguments : option (list mx_argspec))
